@@ -2019,16 +2019,35 @@ class Interp:
                 # that is a member has been through the body exactly once
                 c.use("T-py/for: a loop whose body stores only to fields of its own element acts on each element separately "
                       "(elements of a list are distinct objects)")
+                pure = not any((isinstance(x, ast.Call) and isinstance(x.func, ast.Attribute) and x.func.attr in self._MUTATORS)
+                               or (isinstance(x, ast.Subscript) and isinstance(x.ctx, (ast.Store, ast.Del)))
+                               for b in node.body for x in ast.walk(b))
+                attrs = sorted({x.attr for b in node.body for x in ast.walk(b)
+                                if isinstance(x, ast.Attribute) and isinstance(x.ctx, ast.Store) and isinstance(x.value, ast.Name) and x.value.id in spec.elementwise})
+                saved = dict(env.vars)          # locals keep their havocked (arbitrary) values: the witness need not be the last element
                 for w, inl in list(itv.fields.get("witnesses", [])):
                     if not isinstance(w, SObj):
                         continue
                     isin = inl if isinstance(inl, bool) else c.decide(inl, "witness-went-through-the-loop")
-                    if isin:
+                    if not isin:
+                        continue
+                    if pure:
                         self.assign(node.target, w, env)
                         try:
                             self.exec_block(node.body, env)
                         except ContinueSig:
                             pass
+                    else:
+                        # the body also mutates collections: replaying it would repeat those effects - the stored fields of the
+                        # witness become arbitrary instead
+                        for a_ in attrs:
+                            if a_ in w.fields:
+                                w.fields[a_] = self.havoc_value(w.fields[a_], f"{a_}_after_loop")
+                for k_ in list(env.vars):
+                    if k_ in saved:
+                        env.vars[k_] = saved[k_]
+                    else:
+                        del env.vars[k_]
             self.exec_block(node.orelse, env)
             return
         if isinstance(itv, SSeq):
